@@ -39,6 +39,8 @@ pub struct Input {
     pub hangul: Vec<(u32, u32, u8)>,
     /// order in which property blocks are written
     pub block_order: u8,
+    /// table identifiers differ from the property values they are built from
+    pub alt_names: bool,
 }
 
 const SCRIPT_VALUES: [&str; 7] = ["Greek", "Hebrew", "Hiragana", "Katakana", "Han", "Latin", "Common"];
@@ -113,7 +115,7 @@ impl Input {
         json!({
             "ents": self.ents.iter().map(|e| json!([e.start, e.end, e.gc, e.ccc, e.bidi, e.dec, e.dtarget])).collect::<Vec<_>>(),
             "scripts": t(&self.scripts), "joining": t(&self.joining), "proplist": t(&self.proplist), "coreprops": t(&self.coreprops), "hangul": t(&self.hangul),
-            "block_order": self.block_order,
+            "block_order": self.block_order, "alt_names": self.alt_names,
             "unicode_data_txt": self.unicode_data_text(),
         })
     }
@@ -137,6 +139,7 @@ impl Input {
             coreprops: t("coreprops"),
             hangul: t("hangul"),
             block_order: v["block_order"].as_u64().unwrap_or(0) as u8,
+            alt_names: v["alt_names"].as_bool().unwrap_or(false),
         }
     }
 }
@@ -145,7 +148,12 @@ impl Input {
 // running the real generators, configured exactly as the two build.rs files configure them
 
 pub fn run_generators(ucd: &Path, out: &Path) -> Result<(), String> {
+    run_generators_x(ucd, out, false)
+}
+/// `alt`: every table gets an identifier that differs from the property value it is built from (suffix _x)
+pub fn run_generators_x(ucd: &Path, out: &Path, alt: bool) -> Result<(), String> {
     let e = |x: precis_tools::Error| format!("{x}");
+    let tn = |t: &str| if alt { format!("{t}_x") } else { t.to_string() };
     std::fs::create_dir_all(out).map_err(|x| x.to_string())?;
     // precis-core/build.rs: generate_context_tables
     {
@@ -154,12 +162,12 @@ pub fn run_generators(ucd: &Path, out: &Path) -> Result<(), String> {
         let mut gc_gen = GeneralCategoryGen::new();
         let mut script_gen: UnicodeGen<Script> = UnicodeGen::new();
         let mut djt_gen: UnicodeGen<DerivedJoiningType> = UnicodeGen::new();
-        gc_gen.add(Box::new(ViramaTableGen::new("virama")));
+        gc_gen.add(Box::new(ViramaTableGen::new(&tn("virama"))));
         for (n, t) in [("Greek", "Greek"), ("Hebrew", "Hebrew"), ("Hiragana", "Hiragana"), ("Katakana", "Katakana"), ("Han", "Han")] {
-            script_gen.add(Box::new(UcdTableGen::new(n, t)));
+            script_gen.add(Box::new(UcdTableGen::new(n, &tn(t))));
         }
         for (n, t) in [("D", "Dual_Joining"), ("L", "Left_Joining"), ("R", "Right_Joining"), ("T", "Transparent")] {
-            djt_gen.add(Box::new(UcdTableGen::new(n, t)));
+            djt_gen.add(Box::new(UcdTableGen::new(n, &tn(t))));
         }
         ucd_gen.add(Box::new(gc_gen));
         ucd_gen.add(Box::new(script_gen));
@@ -176,24 +184,24 @@ pub fn run_generators(ucd: &Path, out: &Path) -> Result<(), String> {
         let mut prop_gen: UnicodeGen<Property> = UnicodeGen::new();
         let mut core_prop_gen: UnicodeGen<CoreProperty> = UnicodeGen::new();
         for (n, t) in [("Ll", "Lowercase_Letter"), ("Lu", "Uppercase_Letter"), ("Lo", "Other_Letter"), ("Nd", "Decimal_Number"), ("Lm", "Modifier_Letter"), ("Mn", "Nonspacing_Mark"), ("Mc", "Spacing_Mark")] {
-            gc_gen.add(Box::new(UcdTableGen::new(n, t)));
+            gc_gen.add(Box::new(UcdTableGen::new(n, &tn(t))));
         }
         gen.add(Box::new(ExceptionsGen::new()));
         gen.add(Box::new(BackwardCompatibleGen::new()));
-        prop_gen.add(Box::new(UcdTableGen::new("Join_Control", "Join_Control")));
-        hangul_gen.add(Box::new(UcdTableGen::new("L", "Leading_Jamo")));
-        hangul_gen.add(Box::new(UcdTableGen::new("V", "Vowel_Jamo")));
-        hangul_gen.add(Box::new(UcdTableGen::new("T", "Trailing_Jamo")));
-        gc_gen.add(Box::new(UnassignedTableGen::new("Unassigned")));
+        prop_gen.add(Box::new(UcdTableGen::new("Join_Control", &tn("Join_Control"))));
+        hangul_gen.add(Box::new(UcdTableGen::new("L", &tn("Leading_Jamo"))));
+        hangul_gen.add(Box::new(UcdTableGen::new("V", &tn("Vowel_Jamo"))));
+        hangul_gen.add(Box::new(UcdTableGen::new("T", &tn("Trailing_Jamo"))));
+        gc_gen.add(Box::new(UnassignedTableGen::new(&tn("Unassigned"))));
         gen.add(Box::new(Ascii7Gen::new()));
-        gc_gen.add(Box::new(UcdTableGen::new("Cc", "Control")));
-        core_prop_gen.add(Box::new(UcdTableGen::new("Default_Ignorable_Code_Point", "Default_Ignorable_Code_Point")));
-        prop_gen.add(Box::new(UcdTableGen::new("Noncharacter_Code_Point", "Noncharacter_Code_Point")));
-        gc_gen.add(Box::new(UcdTableGen::new("Zs", "Space_Separator")));
+        gc_gen.add(Box::new(UcdTableGen::new("Cc", &tn("Control"))));
+        core_prop_gen.add(Box::new(UcdTableGen::new("Default_Ignorable_Code_Point", &tn("Default_Ignorable_Code_Point"))));
+        prop_gen.add(Box::new(UcdTableGen::new("Noncharacter_Code_Point", &tn("Noncharacter_Code_Point"))));
+        gc_gen.add(Box::new(UcdTableGen::new("Zs", &tn("Space_Separator"))));
         for (n, t) in [("Sm", "Math_Symbol"), ("Sc", "Currency_Symbol"), ("Sk", "Modifier_Symbol"), ("So", "Other_Symbol"), ("Pc", "Connector_Punctuation"),
             ("Pd", "Dash_Punctuation"), ("Ps", "Open_Punctuation"), ("Pe", "Close_Punctuation"), ("Pi", "Initial_Punctuation"), ("Pf", "Final_Punctuation"),
             ("Po", "Other_Punctuation"), ("Lt", "Titlecase_Letter"), ("Nl", "Letter_Number"), ("No", "Other_Number"), ("Me", "Enclosing_Mark")] {
-            gc_gen.add(Box::new(UcdTableGen::new(n, t)));
+            gc_gen.add(Box::new(UcdTableGen::new(n, &tn(t))));
         }
         ucd_gen.add(Box::new(gc_gen));
         ucd_gen.add(Box::new(hangul_gen));
@@ -207,7 +215,7 @@ pub fn run_generators(ucd: &Path, out: &Path) -> Result<(), String> {
         let mut gen = RustCodeGen::new(out.join("bidi_class.rs")).map_err(e)?;
         let mut ucd_gen = UcdFileGen::new(ucd);
         let mut gc_gen = GeneralCategoryGen::new();
-        gc_gen.add(Box::new(BidiClassGen::new("Bidi_Class_Table")));
+        gc_gen.add(Box::new(BidiClassGen::new(&tn("Bidi_Class_Table"))));
         ucd_gen.add(Box::new(gc_gen));
         gen.add(Box::new(ucd_gen));
         gen.generate_code().map_err(e)?;
@@ -215,7 +223,7 @@ pub fn run_generators(ucd: &Path, out: &Path) -> Result<(), String> {
         let mut gen = RustCodeGen::new(out.join("space_separator.rs")).map_err(e)?;
         let mut ucd_gen = UcdFileGen::new(ucd);
         let mut gc_gen = GeneralCategoryGen::new();
-        gc_gen.add(Box::new(UcdTableGen::new("Zs", "space_separator")));
+        gc_gen.add(Box::new(UcdTableGen::new("Zs", &tn("space_separator"))));
         ucd_gen.add(Box::new(gc_gen));
         gen.add(Box::new(ucd_gen));
         gen.generate_code().map_err(e)?;
@@ -223,7 +231,7 @@ pub fn run_generators(ucd: &Path, out: &Path) -> Result<(), String> {
         let mut gen = RustCodeGen::new(out.join("width_mapping.rs")).map_err(e)?;
         let mut ucd_gen = UcdFileGen::new(ucd);
         let mut gc_gen = GeneralCategoryGen::new();
-        gc_gen.add(Box::new(WidthMappingTableGen::new("wide_narrow_mapping")));
+        gc_gen.add(Box::new(WidthMappingTableGen::new(&tn("wide_narrow_mapping"))));
         ucd_gen.add(Box::new(gc_gen));
         gen.add(Box::new(ucd_gen));
         gen.generate_code().map_err(e)?;
@@ -606,6 +614,11 @@ fn truth_value(t: &Truth, k: Kind, cp: u32) -> Option<String> {
     }
 }
 
+thread_local! {
+    /// 1 = probe every boundary; n > 1 = probe every n-th boundary plus the first and last 16 (table-size sweep)
+    static PROBE_STRIDE: std::cell::Cell<usize> = std::cell::Cell::new(1);
+}
+
 pub struct Report {
     pub tables: usize,
     pub lookups: u64,
@@ -616,7 +629,13 @@ pub fn check_tables(truth: &Truth, out: &Path, full_sweep: bool, with_props: boo
     check_tables_x(truth, out, full_sweep, with_props, false)
 }
 pub fn check_tables_x(truth: &Truth, out: &Path, full_sweep: bool, with_props: bool, cross_check: bool) -> Result<Report, (String, String)> {
-    let tables = read_all_tables(out, cross_check)?;
+    let mut tables = read_all_tables(out, cross_check)?;
+    for t in tables.iter_mut() {
+        if let Some(n) = t.name.strip_suffix("_X") {
+            t.name = n.to_string();
+        }
+    }
+    let stride = PROBE_STRIDE.with(|s| s.get());
     // every table this harness asked the generators for (by name) must have been emitted; the three constant
     // tables (EXCEPTIONS, BACKWARD_COMPATIBLE, ASCII7) and any table I do not know are checked only if present / skipped
     const REQUIRED: [&str; 44] = [
@@ -653,12 +672,18 @@ pub fn check_tables_x(truth: &Truth, out: &Path, full_sweep: bool, with_props: b
                     }
                 }
             };
-            for b in &truth.boundaries {
-                add(*b);
+            let nb = truth.boundaries.len();
+            for (i, b) in truth.boundaries.iter().enumerate() {
+                if stride == 1 || i % stride == 0 || i < 16 || i + 16 >= nb {
+                    add(*b);
+                }
             }
-            for (_, a, b, _) in &tb.entries {
-                add(*a);
-                add(*b);
+            let ne = tb.entries.len();
+            for (i, (_, a, b, _)) in tb.entries.iter().enumerate() {
+                if stride == 1 || i % stride == 0 || i < 16 || i + 16 >= ne {
+                    add(*a);
+                    add(*b);
+                }
             }
             for p in [0u32, 0x7f, 0xd7ff, 0xd800, 0xdfff, 0xe000, 0xfdd0, 0xfdef, 0xfffd, 0xfffe, 0xffff, 0x10000, 0x10fffd, 0x10fffe, 0x10ffff] {
                 add(p);
@@ -746,7 +771,7 @@ pub fn check_input_x(inp: &Input, dir: &Path, l: &mut Local, cross: bool) -> Che
     inp.write(&ucd_dir);
     let case = || json!({"op": "synthetic_ucd", "input": inp.json()});
     l.eval();
-    match guard(|| run_generators(&ucd_dir, &out)) {
+    match guard(|| run_generators_x(&ucd_dir, &out, inp.alt_names)) {
         Ok(Ok(())) => {}
         Ok(Err(e)) => return Err(Violation::new(case(), "generators accept a well-formed UCD input", format!("Err: {e}"))),
         Err(p) => return Err(Violation::new(case(), "generators accept a well-formed UCD input", format!("panic: {p}"))),
@@ -797,8 +822,8 @@ pub fn input_strategy() -> BoxedStrategy<Input> {
     let gap = prop_oneof![55 => Just(0u32), 30 => 1u32..4, 10 => 4u32..200, 4 => 200u32..0x4000, 1 => 0x4000u32..0x60000];
     let len = prop_oneof![60 => Just(0u32), 25 => 1u32..6, 12 => 6u32..300, 3 => 300u32..20000];
     let ent = (gap, len, 1u8..30, prop_oneof![6 => Just(0u8), 2 => Just(9u8), 2 => 1u8..=254], 0u8..23, prop_oneof![6 => Just(0u8), 1 => Just(1u8), 2 => Just(2u8), 2 => Just(3u8), 2 => Just(4u8)], 0u8..10, 0x20u32..0x3000);
-    let props = |nvals: u8| vec((prop_oneof![3 => 0u32..3, 2 => 3u32..40, 1 => 40u32..3000], prop_oneof![2 => Just(0u32), 2 => 1u32..8, 1 => 8u32..200], 0..nvals), 0..12);
-    (prop_oneof![6 => Just(0u32), 4 => 0u32..0x100, 2 => 0u32..0x2000, 2 => 0xd7c0u32..0xd810, 1 => 0xdfc0u32..0xe010, 1 => 0xfd80u32..0xfdd0, 1 => 0xff80u32..0xfff0, 1 => 0x10ff00u32..0x10fff0], prop_oneof![30 => vec(ent.clone(), 0..40), 2 => vec(ent.clone(), 200..700), 1 => vec(ent, 700..2500)], props(7), props(6), props(3), props(2), props(5), any::<u8>(), vec(prop_oneof![3 => Just(0u32), 1 => 0xd7c0u32..0xd810, 1 => 0xdfc0u32..0xe010, 1 => 0x10ff00u32..0x10fff0], 5))
+    let props = |nvals: u8| vec((prop_oneof![30 => 0u32..3, 20 => 3u32..40, 10 => 40u32..3000, 1 => 65530u32..65540], prop_oneof![20 => Just(0u32), 20 => 1u32..8, 10 => 8u32..200, 1 => 65530u32..65537, 1 => 20000u32..46000], 0..nvals), 0..12);
+    (prop_oneof![6 => Just(0u32), 4 => 0u32..0x100, 2 => 0u32..0x2000, 2 => 0xd7c0u32..0xd810, 1 => 0xdfc0u32..0xe010, 1 => 0xfd80u32..0xfdd0, 1 => 0xff80u32..0xfff0, 1 => 0x10ff00u32..0x10fff0], prop_oneof![30 => vec(ent.clone(), 0..40), 2 => vec(ent.clone(), 200..700), 1 => vec(ent, 700..2500)], props(7), props(6), props(3), props(2), props(5), any::<u8>(), vec(prop_oneof![6 => Just(0u32), 2 => 0xd7c0u32..0xd810, 2 => 0xdfc0u32..0xe010, 2 => 0x10ff00u32..0x10fff0, 1 => Just(0x30000u32), 1 => Just(0x2fffeu32), 1 => Just(0x20001u32)], 5))
         .prop_map(|(base, specs, sc, jt, pl, cp, hg, block_order, pbases)| {
             let mut ents = Vec::new();
             let mut pos = base as u64;
@@ -838,7 +863,7 @@ pub fn input_strategy() -> BoxedStrategy<Input> {
                 }
                 out
             };
-            Input { ents, scripts: lay(sc, 0), joining: lay(jt, 1), proplist: lay(pl, 2), coreprops: lay(cp, 3), hangul: lay(hg, 4), block_order }
+            Input { ents, scripts: lay(sc, 0), joining: lay(jt, 1), proplist: lay(pl, 2), coreprops: lay(cp, 3), hangul: lay(hg, 4), block_order, alt_names: block_order & 1 == 1 }
         })
         .boxed()
 }
@@ -1047,7 +1072,9 @@ pub fn run(run: &Run) {
          (b) proptest synthetic UCD directories written under /verif/work: UnicodeData.txt with strictly increasing entries (0..40 entries, one input in eleven with 200..2500; single lines and First/Last pairs, \
          adjacent and non-adjacent, gaps from 0 to 0x60000, windows at 0, around the surrogate block, U+E000, U+FDD0, U+FFF0 and U+10FFF0, any of the 29 assigned categories, ccc incl. 9, all 23 bidi classes with run structure, decomposition \
          none/canonical/<wide>/<narrow>/<compat>) plus synthetic Scripts, DerivedJoiningType, PropList, DerivedCoreProperties and HangulSyllableType files (single and \
-         a..b lines, property blocks in generated order); (c) proptest variations of the pinned UnicodeData files (drop line blocks, flip bidi class / category on \
+         a..b lines, property blocks in generated order); (b2) a table-size sweep: inputs of isolated code points spread over 20 categories so that every table size 1..=1200 (quick) / 1..=20000 (thorough) and \
+         4095..4097, 8191..8193, 16383..16385 is emitted at least once (probed at every 97th boundary and at both ends); half of all inputs use table identifiers \
+         that differ from the property value they are built from; (c) proptest variations of the pinned UnicodeData files (drop line blocks, flip bidi class / category on \
          lines, merge runs of equal singles into First/Last pairs, insert lines into gaps, truncate the tail), compared at all code points. Never assigns \
          noncharacters (no Unicode version does). The real generators run through their public API configured as in the two build.rs files; emitted Rust text is \
          read back into Vec<precis_core::Codepoints> and searched with the library's binary_search_by(partial_cmp). Oracle: my own parse of the same input files: \
@@ -1089,6 +1116,50 @@ pub fn run(run: &Run) {
         check_input_x(inp, &dir, l, cross)
     });
 
+    // (b2) table-size sweep: isolated single code points spread over 20 categories so that one input yields 20+ tables of
+    // different, chosen sizes; every size 1..=S is produced (S = 1200 quick, 20000 thorough) plus sizes around 4096/8192/16384
+    let smax = run.pick(1200usize, 20000usize);
+    let mut sizes: Vec<usize> = (1..=smax).collect();
+    sizes.extend([4095usize, 4096, 4097, 8191, 8192, 8193, 16383, 16384, 16385]);
+    let cats: [u8; 20] = [1, 2, 5, 9, 4, 6, 7, 19, 20, 21, 22, 12, 13, 14, 15, 16, 17, 18, 3, 10];
+    let batches: Vec<Vec<usize>> = sizes.chunks(20).map(|c| c.to_vec()).collect();
+    let batches = &batches;
+    run.par("table_size_sweep", true, |tid, n, l| {
+        for (bi, batch) in batches.iter().enumerate() {
+            if bi % n != tid {
+                continue;
+            }
+            if run.stopped() {
+                return;
+            }
+            let mut ents = Vec::new();
+            let mut cp = 0x100u32;
+            for (j, count) in batch.iter().enumerate() {
+                for _ in 0..*count {
+                    while non_char(cp) || (0xd7f0..0xe010).contains(&cp) {
+                        cp += 1;
+                    }
+                    ents.push(Ent { start: cp, end: cp, gc: cats[j], ccc: 0, bidi: (j % 23) as u8, dec: 0, dtarget: 0 });
+                    cp += 2;
+                }
+            }
+            if cp > 0x10fff0 {
+                continue;
+            }
+            let inp = Input { ents, alt_names: bi % 2 == 1, ..Input::default() };
+            let dir = work_dir(&format!("size{tid}"));
+            l.cases += 1;
+            PROBE_STRIDE.with(|s| s.set(97));
+            let r = check_input(&inp, &dir, l);
+            PROBE_STRIDE.with(|s| s.set(1));
+            if let Err(mut v) = r {
+                v.case = json!({"op": "table_sizes", "sizes_per_category": batch, "alt_names": bi % 2 == 1});
+                run.violate(v);
+                return;
+            }
+        }
+    });
+
     // (c) pinned variations
     let lines = [pinned_lines(0), pinned_lines(1)];
     run.prop("pinned_variations", run.pick(64, 3_200), var_strategy, |(which, ops), l| {
@@ -1116,6 +1187,25 @@ pub fn replay(_run: &Run, case: &Value) -> Check {
             check_variation(which, &ops, &pinned_lines(which), &dir, &mut l)
         }
         Some("pinned") => Ok(()),
+        Some("table_sizes") => {
+            let cats: [u8; 20] = [1, 2, 5, 9, 4, 6, 7, 19, 20, 21, 22, 12, 13, 14, 15, 16, 17, 18, 3, 10];
+            let mut ents = Vec::new();
+            let mut cp = 0x100u32;
+            for (j, count) in case["sizes_per_category"].as_array().unwrap().iter().enumerate() {
+                for _ in 0..count.as_u64().unwrap() {
+                    while non_char(cp) || (0xd7f0..0xe010).contains(&cp) {
+                        cp += 1;
+                    }
+                    ents.push(Ent { start: cp, end: cp, gc: cats[j], ccc: 0, bidi: (j % 23) as u8, dec: 0, dtarget: 0 });
+                    cp += 2;
+                }
+            }
+            let inp = Input { ents, alt_names: case["alt_names"].as_bool().unwrap_or(false), ..Input::default() };
+            PROBE_STRIDE.with(|s| s.set(97));
+            let r = check_input(&inp, &dir, &mut l);
+            PROBE_STRIDE.with(|s| s.set(1));
+            r
+        }
         _ => panic!("unknown C15 case"),
     };
     let _ = std::fs::remove_dir_all(&dir);
